@@ -10,7 +10,7 @@
     atomicity of std::fs::write is outside the model, and that the language server publishes
     a diagnostic exactly when the other two fail. *)
 From Oal Require Import Cli CliProofs.
-From Oal Require Diag DiagProofs.
+From Oal Require Diag DiagProofs Loop LoopProofs.
 
 Theorem C13_failure_leaves_fs : forall Doc Spec Base load_eval parse_base emit to_yaml writable cfg fs fs',
   Cli.run Doc Spec Base load_eval parse_base emit to_yaml writable cfg fs = (Failure, fs') -> fs' = fs.
@@ -60,3 +60,15 @@ Theorem C13_lsp_diagnostic_iff_error : forall st docs errs, DiagProofs.inv st ->
   (exists l, Diag.vget (Diag.s_view (Diag.refresh st docs errs)) l <> []) <-> errs <> [].
 Proof. exact DiagProofs.diagnostic_iff_error. Qed.
 Print Assumptions C13_lsp_diagnostic_iff_error.
+
+(** ... and this after any history of notifications, requests and idle seconds (main loop, Model/Loop.v):
+    once a request has been answered, the client shows a diagnostic exactly when the evaluation
+    of the current texts reports an error *)
+Theorem C13_lsp_loop_diagnostic_iff_error :
+  forall (world fstate req ans : Type) (docs_of : world -> list Diag.loc)
+         (eval_folders : world -> fstate * list (Diag.loc * Diag.diag)) (handle : fstate -> world -> req -> ans)
+         (w : world) (fs0 : fstate) (h : list (Loop.event world req)) (r : req),
+  (exists l, Diag.vget (Diag.s_view (Loop.l_sc (fst (Loop.run docs_of eval_folders handle (Loop.start w fs0) (h ++ [Loop.Request r]))))) l <> []) <->
+  snd (eval_folders (Loop.world_after w h)) <> [].
+Proof. exact LoopProofs.loop_diagnostic_iff_error. Qed.
+Print Assumptions C13_lsp_loop_diagnostic_iff_error.
